@@ -206,6 +206,22 @@ Fixpoint first_missing_from (i : nat) (args : list argspec) (given : list nat) :
 Definition first_missing (c : ctxspec) (given : list nat) : option nat :=
   first_missing_from 0 (cx_args c) given.
 
+(** a positional parameter that a value can be given to by position -- whether
+    or not it also declares a default ("positionals given positionally") *)
+Definition positional_slot (a : argspec) : bool :=
+  a_positional a && takes_value a && negb (akind_eqb (a_kind a) KList).
+
+(** the first positional slot, in declaration order, not yet given a value *)
+Fixpoint first_slot_from (i : nat) (args : list argspec) (given : list nat) : option nat :=
+  match args with
+  | [] => None
+  | a :: rest =>
+      if positional_slot a && negb (existsb (Nat.eqb i) given) then Some i
+      else first_slot_from (S i) rest given
+  end.
+Definition first_slot (c : ctxspec) (given : list nat) : option nat :=
+  first_slot_from 0 (cx_args c) given.
+
 Definition intlike (s : string) : bool := match parse_int s with Some _ => true | None => false end.
 
 (** a value that can be written as its own token after a flag *)
@@ -260,8 +276,8 @@ Definition occ_ok (c : ctxspec) (given : list nat) (in_cluster : bool) (o : occ)
               || (negb (is_task_name cs s) && negb (starts_with "-" s)
                   && match first_missing c given with None => true | Some _ => false end))
       | FPos, VS s =>
-          negb in_cluster && required_positional a
-          && match first_missing c given with Some i => Nat.eqb i (o_arg o) | None => false end
+          negb in_cluster && positional_slot a
+          && match first_slot c given with Some i => Nat.eqb i (o_arg o) | None => false end
           && negb (starts_with "-" s)
           && castable a s
       | _, _ => false
